@@ -169,6 +169,76 @@ pub fn observe(p: &Program, text: &str, monitors: bool) -> Observed {
 /// (tests/**/*.sy) under luamon with their `// error:` annotations as the oracle.
 const CORPUS_SLOTS: u64 = 400;
 
+/// The first HELD_SLOTS case indices of C10: a value read from a mutable variable is held while calls
+/// that assign that variable run; the ONLY assignment of the variable sits in one of 12 syntactic
+/// positions, written `=` or `+=`, the variable is a global or a captured local, and the held read is
+/// used in 5 expression forms. Expected prints are known in closed form.
+const HELD_SLOTS: u64 = 12 * 2 * 2 * 5;
+
+fn held_value_case(index: u64, st: &mut Stats) {
+    let pos = (index % 12) as usize;
+    let form = ((index / 12) % 2) as usize;
+    let captured = (index / 24) % 2 == 1;
+    let read = ((index / 48) % 5) as usize;
+    let assign = ["g = g + 1", "g += 1"][form];
+    let pos_names = ["plain", "if-arm", "else-arm", "elif-arm", "case-arm", "case-else", "loop-body", "block", "closure", "method", "nested", "for_each-lambda"];
+    let body = match pos {
+        0 => "ASSIGN".to_string(),
+        1 => "if true do\n    ASSIGN\nend".to_string(),
+        2 => "if g < 0 do\n    print(0)\nelse do\n    ASSIGN\nend".to_string(),
+        3 => "if g < 0 do\n    print(0)\nelif true do\n    ASSIGN\nend".to_string(),
+        4 => "case E.A 1 do\n    A q ->\n        ASSIGN\n    end\n    B ->\n    end\nend".to_string(),
+        5 => "case E.B do\n    A q ->\n        print(q)\n    end\n    else\n        ASSIGN\n    end\nend".to_string(),
+        6 => "i := 0\nloop i < 1 do\n    i += 1\n    ASSIGN\nend".to_string(),
+        7 => "do\n    ASSIGN\nend".to_string(),
+        8 => "h :: fn do\n    ASSIGN\nend\nh()".to_string(),
+        9 => "o :: Bq { f: fn do\n    ASSIGN\nend }\no.f()".to_string(),
+        10 => "do\n    i := 0\n    loop i < 1 do\n        i += 1\n        if i > 0 do\n            ASSIGN\n        end\n    end\nend".to_string(),
+        _ => "list.for_each([1], fn e do\n    ASSIGN\nend)".to_string(),
+    }
+    .replace("ASSIGN", assign);
+    let (read_src, probe_value, side_calls) = match read {
+        0 => ("g + side() + side()", "5", 2),
+        1 => ("pair(g, side())", "50", 1),
+        2 => ("(g, side())[0]", "5", 1),
+        3 => ("k :: g\nside()\nk", "5", 1),
+        _ => ("g * 1 + side()", "5", 1),
+    };
+    let indent = |t: &str, n: usize| t.lines().map(|l| format!("{}{}", " ".repeat(n), l)).collect::<Vec<_>>().join("\n");
+    let decls = "E :: enum\n    A int,\n    B,\nend\n\nBq :: blob {\n    f: fn -> void,\n}\n\npair :: fn a: int, b: int -> int do\n    a * 10 + b\nend\n\n";
+    let text = if captured {
+        format!(
+            "{}start :: fn do\n    g := 5\n    bump :: fn do\n{}\n    end\n    side :: fn -> int do\n        bump()\n        0\n    end\n    probe :: fn -> int do\n{}\n    end\n    print(probe())\n    print(g)\nend\n",
+            decls,
+            indent(&body, 8),
+            indent(read_src, 8)
+        )
+    } else {
+        format!(
+            "{}g := 5\n\nbump :: fn do\n{}\nend\n\nside :: fn -> int do\n    bump()\n    0\nend\n\nprobe :: fn -> int do\n{}\nend\n\nstart :: fn do\n    print(probe())\n    print(g)\nend\n",
+            decls,
+            indent(&body, 4),
+            indent(read_src, 4)
+        )
+    };
+    let expect = vec![probe_value.to_string(), (5 + side_calls).to_string()];
+    let what = format!("only assignment in {} ({}), {} variable, held read `{}`", pos_names[pos], assign, if captured { "captured local" } else { "global" }, read_src.replace("\n", " ; "));
+    st.count("held_value_programs");
+    st.count(&format!("held_value:position:{}", pos_names[pos]));
+    let viol = |sig: &str, obs: String| Violation { signature: sig.to_string(), hazard: None, case: index, detail: J::obj().with("what", J::s(what.clone())).with("program", J::s(text.clone())).with("expected_prints", J::Arr(expect.iter().map(|e| J::s(e.clone())).collect())).with("observed", J::s(obs)) };
+    match sy::compile_files(&sy::one_file(&text), "main.sy", &sy::CompileOpts { fuel: Some(crate::rel::CAMPAIGN_FUEL), ..Default::default() }) {
+        sy::Compiled::Ok(b) => match lua::run_simple(&String::from_utf8_lossy(&b)) {
+            lua::Simple::Prints(p) if p == expect => {
+                st.count("held_value_programs_as_expected");
+                st.nontrivial(hash64(text.as_bytes()));
+            }
+            lua::Simple::Prints(p) => st.violation(viol("held:value-changed-by-later-call", format!("{:?}", p))),
+            other => st.violation(viol("held:run-failed", format!("{:?}", other).chars().take(300).collect())),
+        },
+        other => st.violation(viol("held:template-rejected", other.brief())),
+    }
+}
+
 fn corpus_files() -> &'static (Vec<String>, sy::Files) {
     static C: std::sync::OnceLock<(Vec<String>, sy::Files)> = std::sync::OnceLock::new();
     C.get_or_init(|| {
@@ -294,6 +364,10 @@ impl Check for Traced {
     fn run_case(&self, ctx: &Ctx, index: u64, st: &mut Stats) {
         if self.prop == "C01" && index < CORPUS_SLOTS {
             corpus_case(index, st);
+            return;
+        }
+        if self.prop == "C10" && index < HELD_SLOTS {
+            held_value_case(index, st);
             return;
         }
         let mut rng = Rng::for_case(ctx.seed, self.prop, index);
